@@ -60,7 +60,11 @@ class Lexer(object):
 
     @TOKEN(r'("(\\.|[^"\\])*")|(\'(\\.|[^\'\\])*\')')
     def t_STRING(self, t):
-        t.value = t.value.strip("\"'").encode().decode("unicode_escape")
+        try:
+            t.value = t.value.strip("\"'").encode().decode("unicode_escape")
+        except UnicodeDecodeError:
+            # An incomplete or unknown escape sequence (e.g. a backslash before the closing quote)
+            raise SyntaxError("Invalid escape sequence in string at position {0}".format(t.lexpos))
         return t
 
     @TOKEN(r"[\r\n]+")
